@@ -226,8 +226,12 @@ def report_violation(ctx, replay_obj, key=None):
 
     `key` identifies the specific failing site/input/history; if known_findings.json lists it
     as `known` for this property, a KNOWN-FINDING line is printed instead."""
+    if key is None:
+        m = re.match(r"KNOWN\[([^\]]+)\]", str(replay_obj.get("oracle", "")))
+        if m:
+            key = m.group(1)
     for k in load_known().get("known", []):
-        if k.get("property") == ctx.pid and key is not None and k.get("key") == key:
+        if (k.get("property") == ctx.pid or ctx.pid in k.get("properties", [])) and key is not None and k.get("key") == key:
             if key not in ctx.known:
                 ctx.known.append(key)
                 print(f"KNOWN-FINDING: property={ctx.pid} {k.get('what', key)}", flush=True)
